@@ -143,6 +143,47 @@ fn run_e<E: Pairing>(scn: &Scenario, log: &EventLog) -> RunResult {
                 // the key holds min(max_eval_points, max_degree) + 1 powers in G2: more points are out of domain
                 if zs.len() > scn.cfg.supported_hiding.min(scn.cfg.max_degree) {
                     res.stats.probe("streaming:too-many-points-for-key");
+                    // Out of the key's domain for the honest prover (it aborts). A byzantine prover is
+                    // not bound by that: with m + 1 points for a key made for m, a verifier whose MSMs
+                    // silently truncate checks f - (I mod x^m) = q * (Z mod x^(m+1)) instead of
+                    // f - I = q * Z. Claims v_j = (r + c x^m)(z_j) with (q, r) = f divmod (Z mod x^(m+1))
+                    // and the "proof" [q(tau)]G then verify although every claim is false.
+                    use ark_poly::univariate::{DenseOrSparsePolynomial, DensePolynomial};
+                    use ark_poly::{DenseUVPolynomial, Polynomial};
+                    let m = scn.cfg.supported_hiding.min(scn.cfg.max_degree);
+                    let p = ps[0];
+                    let zv: Vec<E::ScalarField> = zs.iter().take(m + 1).map(|&z| points[z]).collect();
+                    let mut zfull = DensePolynomial::from_coefficients_vec(vec![E::ScalarField::from(1u64)]);
+                    for z in &zv { zfull = zfull.naive_mul(&DensePolynomial::from_coefficients_vec(vec![-*z, E::ScalarField::from(1u64)])); }
+                    let zprime = DensePolynomial::from_coefficients_vec(zfull.coeffs.iter().take(m + 1).copied().collect());
+                    let f = DensePolynomial::from_coefficients_vec(polys[p].clone());
+                    // (a crafted proof for false claims in a batched verification: counted under C05 only)
+                    if scn.property == "C05" && m >= 1 && !zprime.is_zero() && zprime.degree() == m && f.degree() >= m {
+                        if let Some((q, r)) = DenseOrSparsePolynomial::from(&f).divide_with_q_and_r(&DenseOrSparsePolynomial::from(&zprime)) {
+                            let c = delta(9000 + i as u64);
+                            let mut j = r.coeffs.clone();
+                            j.resize(m + 1, E::ScalarField::zero());
+                            j[m] += c;
+                            let jp = DensePolynomial::from_coefficients_vec(j);
+                            let ev: Vec<E::ScalarField> = zv.iter().map(|z| jp.evaluate(z)).collect();
+                            let all_false = zs.iter().take(m + 1).zip(ev.iter()).all(|(&z, v)| truth(p, z) != *v);
+                            // [q(tau)]G through the public prover: the witness of q(x) * (x - z0) at z0 is q
+                            let z0 = zv[0];
+                            let shifted = q.naive_mul(&DensePolynomial::from_coefficients_vec(vec![-z0, E::ScalarField::from(1u64)]));
+                            if all_false && shifted.degree() <= scn.cfg.max_degree {
+                                if let Outcome::Ok((_, pi)) = step(|| Ok::<_, String>(ck.open(&shifted.coeffs, &z0))) {
+                                    let eta = E::ScalarField::rand(&mut SimRng::new(scn.seed, "verifier-eta", i as u64));
+                                    res.stats.fire("too-many-points-forgery");
+                                    res.stats.checks += 1;
+                                    let acc = matches!(step(|| Ok::<_, String>(vk.verify_multi_points(&[comms[p]], &zv, &[ev.clone()], &pi, &eta).is_ok())), Outcome::Ok(true));
+                                    res.classes.insert(format!("{fam}|batch|too-many-points-forgery|{}", acc));
+                                    if acc {
+                                        res.violations.push(viol(scn, "safety", "too-many-points-forgery", "batch", format!("verify_multi_points accepted {} false evaluations at {} points with a key made for {} (op {i})", ev.len(), zv.len(), m)));
+                                    }
+                                }
+                            }
+                        }
+                    }
                     continue;
                 }
                 let zvals: Vec<E::ScalarField> = zs.iter().map(|&z| points[z]).collect();
